@@ -226,6 +226,11 @@ Step(e) ==
     [] e.e = "names" ->
          /\ Check("C07", <<"error-does-not-name-failing-target">>, e.ok)
          /\ UNCHANGED mon
+    [] e.e = "watchrun" ->  \* a free-running watch session of the real binary on real inotify, as observed by the driver
+         /\ CheckAll({"C06"}, <<"watch-session-ended-by-itself">>, ~e.early)
+         /\ CheckAll({"C06"}, <<"last-change-not-built", e.inv, e.outv>>, ~e.early => e.outv = e.inv)
+         /\ CheckAll({"C16", "C06"}, <<"rebuilds-without-any-change", e.extra>>, e.extra = 0)
+         /\ UNCHANGED mon
     [] e.e = "exit" ->
          /\ CheckAll({"C10"} \cup (IF \E t \in T : inst[t] # {} THEN {"C11"} ELSE {}), <<"process-alive-at-exit">>,
                   \A t \in T : inst[t] = {} /\ shells[t] = 0)
